@@ -1,421 +1,22 @@
-// C13 correspondence harness: runs the real fcppt::math::box functions on the operation lines described in
-// /verif/lean/FcpptModel/Drv/C13.lean and prints the same canonical result lines.
-#include "common/vh.hpp"
-
-#include <fcppt/math/interval_distance.hpp>
-#include <fcppt/math/size_constant.hpp>
-#include <fcppt/math/size_type.hpp>
-#include <fcppt/math/box/center.hpp>
-#include <fcppt/math/box/comparison.hpp>
-#include <fcppt/math/box/contains.hpp>
-#include <fcppt/math/box/contains_point.hpp>
-#include <fcppt/math/box/corner_points.hpp>
-#include <fcppt/math/box/distance.hpp>
-#include <fcppt/math/box/extend_bounding_box.hpp>
-#include <fcppt/math/box/init_dim.hpp>
-#include <fcppt/math/box/init_max.hpp>
-#include <fcppt/math/box/intersection.hpp>
-#include <fcppt/math/box/intersects.hpp>
-#include <fcppt/math/box/interval.hpp>
-#include <fcppt/math/box/null.hpp>
-#include <fcppt/math/box/object_impl.hpp>
-#include <fcppt/math/box/shrink.hpp>
-#include <fcppt/math/box/stretch_absolute.hpp>
-#include <fcppt/math/dim/at.hpp>
-#include <fcppt/math/dim/init.hpp>
-#include <fcppt/math/dim/object_impl.hpp>
-#include <fcppt/math/vector/at.hpp>
-#include <fcppt/math/vector/init.hpp>
-#include <fcppt/math/vector/object_impl.hpp>
-#include <fcppt/tuple/make.hpp>
-#include <fcppt/tuple/object_impl.hpp>
-
-#include <array>
-#include <cstdint>
-#include <limits>
-#include <optional>
-#include <string>
-#include <vector>
+// C13 correspondence harness: dispatch on the coordinate type.  The work is in c13_inst.hpp; one translation unit per
+// coordinate type (c13_i.cpp int, c13_u.cpp unsigned, c13_l.cpp long, c13_m.cpp unsigned long) so that they compile in parallel.
+#include "c13_inst.hpp"
 
 namespace
 {
-constexpr std::uint64_t prime = 1099511628211ULL;
-
-inline std::uint64_t mix(std::uint64_t h, std::uint64_t x) { return (h ^ x) * prime; }
-
-template <typename T>
-std::uint64_t u64(T x)
-{
-  if constexpr (std::is_signed_v<T>)
-    return static_cast<std::uint64_t>(static_cast<std::int64_t>(x));
-  else
-    return static_cast<std::uint64_t>(x);
-}
-
-template <typename T>
-std::optional<T> scalar(std::string const &s)
-{
-  // accept exactly the values of T
-  try
-  {
-    std::size_t used = 0;
-    long long const v = std::stoll(s, &used);
-    if (used != s.size())
-      return std::nullopt;
-    if (v < static_cast<long long>(std::numeric_limits<T>::min()) ||
-        v > static_cast<long long>(std::numeric_limits<T>::max()))
-      return std::nullopt;
-    return static_cast<T>(v);
-  }
-  catch (...)
-  {
-    return std::nullopt;
-  }
-}
-
-template <typename T, fcppt::math::size_type N>
-struct inst
-{
-  using box = fcppt::math::box::object<T, N>;
-  using vec = typename box::vector;
-  using dim = typename box::dim;
-  using arr = std::array<T, N>;
-
-  static vec to_vec(arr const &a)
-  {
-    return fcppt::math::vector::init<vec>(
-        [&a]<fcppt::math::size_type I>(fcppt::math::size_constant<I>) { return a[I]; });
-  }
-
-  template <typename V>
-  static arr from(V const &v)
-  {
-    arr r{};
-    // the storage is read through the public at<I>
-    [&]<std::size_t... I>(std::index_sequence<I...>)
-    { ((r[I] = fcppt::math::vector::at<I>(v)), ...); }(std::make_index_sequence<N>{});
-    return r;
-  }
-
-  static arr from_dim(dim const &v)
-  {
-    arr r{};
-    [&]<std::size_t... I>(std::index_sequence<I...>)
-    { ((r[I] = fcppt::math::dim::at<I>(v)), ...); }(std::make_index_sequence<N>{});
-    return r;
-  }
-
-  static std::optional<vec> parse_vec(std::string const &s)
-  {
-    arr a{};
-    std::size_t pos = 0;
-    for (std::size_t k = 0; k < N; ++k)
-    {
-      std::size_t const next = s.find(',', pos);
-      if ((next == std::string::npos) != (k + 1 == N))
-        return std::nullopt;
-      auto const v = scalar<T>(s.substr(pos, next == std::string::npos ? next : next - pos));
-      if (!v)
-        return std::nullopt;
-      a[k] = *v;
-      pos = next + 1;
-    }
-    return to_vec(a);
-  }
-
-  static std::string show(arr const &a)
-  {
-    std::string r;
-    for (std::size_t k = 0; k < N; ++k)
-    {
-      if (k)
-        r += ',';
-      r += std::to_string(a[k]);
-    }
-    return r;
-  }
-  static std::string show_vec(vec const &v) { return show(from(v)); }
-  static std::string show_box(box const &b) { return show_vec(b.pos()) + "/" + show_vec(b.max()); }
-  static char const *b01(bool b) { return b ? "1" : "0"; }
-
-  static std::uint64_t mix_vec(std::uint64_t h, vec const &v)
-  {
-    for (T x : from(v))
-      h = mix(h, u64(x));
-    return h;
-  }
-  static std::uint64_t mix_box(std::uint64_t h, box const &b) { return mix_vec(mix_vec(h, b.pos()), b.max()); }
-
-  // all points of [lo,hi]^N, coordinate 0 outermost
-  static std::vector<vec> cube(T lo, T hi)
-  {
-    std::vector<vec> r;
-    if (hi < lo)
-      return r;
-    arr cur{};
-    cur.fill(lo);
-    while (true)
-    {
-      r.push_back(to_vec(cur));
-      std::size_t k = N;
-      while (k > 0)
-      {
-        --k;
-        if (cur[k] < hi)
-        {
-          ++cur[k];
-          break;
-        }
-        cur[k] = lo;
-        if (k == 0)
-          return r;
-      }
-    }
-  }
-
-  static std::string pair_line(box const &a, box const &b, std::vector<vec> const &lat)
-  {
-    namespace fb = fcppt::math::box;
-    box const i{fb::intersection(a, b)};
-    box const e{fb::extend_bounding_box(a, b)};
-    std::uint64_t h = vh::fnv_init;
-    for (vec const &p : lat)
-      h = mix(
-          h,
-          (fb::contains_point(a, p) ? 1U : 0U) | (fb::contains_point(b, p) ? 2U : 0U) |
-              (fb::contains_point(i, p) ? 4U : 0U) | (fb::contains_point(e, p) ? 8U : 0U));
-    std::string r;
-    r += "int=";
-    r += b01(fb::intersects(a, b));
-    r += b01(fb::intersects(b, a));
-    r += " cont=";
-    r += b01(fb::contains(a, b));
-    r += b01(fb::contains(b, a));
-    r += " isect=" + show_box(i) + " ext=" + show_box(e);
-    r += " eq=";
-    r += b01(a == b);
-    r += " ne=";
-    r += b01(a != b);
-    r += " lt=";
-    r += b01(a < b);
-    r += " gt=";
-    r += b01(b < a);
-    r += " dist=" + show_vec(fb::distance(a, b)) + " rdist=" + show_vec(fb::distance(b, a));
-    r += " pts=" + vh::hex64(h);
-    return r;
-  }
-
-  static std::string pt_line(box const &a, box const &b, vec const &p)
-  {
-    namespace fb = fcppt::math::box;
-    box const i{fb::intersection(a, b)};
-    box const e{fb::extend_bounding_box(a, b)};
-    std::string r;
-    r += "a=";
-    r += b01(fb::contains_point(a, p));
-    r += " b=";
-    r += b01(fb::contains_point(b, p));
-    r += " i=";
-    r += b01(fb::contains_point(i, p));
-    r += " e=";
-    r += b01(fb::contains_point(e, p));
-    return r;
-  }
-
-  static std::string pairs_digest(box const &a, T lo, T hi, T clo, T chi)
-  {
-    auto const lat = cube(lo, hi);
-    auto const cs = cube(clo, chi);
-    std::uint64_t h = vh::fnv_init;
-    for (vec const &bmin : cs)
-      for (vec const &bmax : cs)
-        h = vh::fnv(h, pair_line(a, box{bmin, bmax}, lat));
-    return "D " + vh::hex64(h);
-  }
-
-  static std::string shr_line(box const &b, vec const &v)
-  {
-    namespace fb = fcppt::math::box;
-    box const s{fb::shrink(b, v)};
-    return "shrink=" + show_box(s) + " stretch=" + show_box(fb::stretch_absolute(b, v)) +
-           " back=" + show_box(fb::stretch_absolute(s, v));
-  }
-
-  static std::string extp_line(box const &b, vec const &p)
-  {
-    namespace fb = fcppt::math::box;
-    return "ext=" + show_box(fb::extend_bounding_box(b, p)) + " in=" + b01(fb::contains_point(b, p));
-  }
-
-  static std::string sides(box const &b)
-  {
-    std::string r;
-    r += " l=" + std::to_string(b.left()) + " r=" + std::to_string(b.right());
-    if constexpr (N >= 2)
-      r += " t=" + std::to_string(b.top()) + " b=" + std::to_string(b.bottom());
-    if constexpr (N >= 3)
-      r += " f=" + std::to_string(b.front()) + " k=" + std::to_string(b.back());
-    return r;
-  }
-
-  static std::string unary_line(box const &b, T lo, T hi)
-  {
-    namespace fb = fcppt::math::box;
-    auto const lat = cube(lo, hi);
-    dim const sz{b.size()};
-    arr const sza{from_dim(sz)};
-    box const rt1{b.pos(), sz};
-    box const rt2{fb::init_max<box>(
-        [&b]<fcppt::math::size_type I>(fcppt::math::size_constant<I>)
-        { return fcppt::tuple::make(fcppt::math::vector::at<I>(b.pos()), fcppt::math::vector::at<I>(b.max())); })};
-    box const rt3{fb::init_dim<box>(
-        [&b, &sza]<fcppt::math::size_type I>(fcppt::math::size_constant<I>)
-        { return fcppt::tuple::make(fcppt::math::vector::at<I>(b.pos()), sza[I]); })};
-    std::uint64_t hs = vh::fnv_init;
-    for (vec const &v : lat)
-      hs = mix_box(mix_box(hs, fb::shrink(b, v)), fb::stretch_absolute(b, v));
-    std::uint64_t hp = vh::fnv_init;
-    for (vec const &p : lat)
-      hp = mix(mix_box(hp, fb::extend_bounding_box(b, p)), fb::contains_point(b, p) ? 1U : 0U);
-    std::string corners;
-    {
-      auto const cp = fb::corner_points(b);
-      std::size_t count = 0;
-      for (auto const &c : cp)
-      {
-        if (count++)
-          corners += ';';
-        corners += show_vec(c);
-        if (count > 64)
-          break;
-      }
-    }
-    std::string r;
-    r += "size=" + show(sza) + " pos=" + show_vec(b.pos()) + " max=" + show_vec(b.max()) + sides(b);
-    r += " corners=" + corners;
-    r += " center=" + show_vec(fb::center(b)) + " null=" + show_box(fb::null<box>());
-    r += " rt=" + show_box(rt1) + "|" + show_box(rt2) + "|" + show_box(rt3);
-    r += " self=";
-    r += b01(b == b);
-    r += b01(b != b);
-    r += b01(b < b);
-    r += b01(fb::contains(b, b));
-    r += b01(fb::intersects(b, b));
-    r += " sh=" + vh::hex64(hs) + " xp=" + vh::hex64(hp);
-    return r;
-  }
-
-  static std::string handle(std::vector<std::string> const &t)
-  {
-    auto vecs = [&t](std::size_t from, std::size_t count) -> std::optional<std::vector<vec>>
-    {
-      std::vector<vec> r;
-      for (std::size_t k = from; k < from + count; ++k)
-      {
-        auto v = parse_vec(t[k]);
-        if (!v)
-          return std::nullopt;
-        r.push_back(*v);
-      }
-      return r;
-    };
-    auto scalars = [&t](std::size_t from, std::size_t count) -> std::optional<std::vector<T>>
-    {
-      std::vector<T> r;
-      for (std::size_t k = from; k < from + count; ++k)
-      {
-        auto v = scalar<T>(t[k]);
-        if (!v)
-          return std::nullopt;
-        r.push_back(*v);
-      }
-      return r;
-    };
-    if (t[0] == "pair" && t.size() == 9)
-    {
-      auto const v = vecs(3, 4);
-      auto const s = scalars(7, 2);
-      if (!v || !s)
-        return "bad-op";
-      return pair_line(box{(*v)[0], (*v)[1]}, box{(*v)[2], (*v)[3]}, cube((*s)[0], (*s)[1]));
-    }
-    if (t[0] == "pt" && t.size() == 8)
-    {
-      auto const v = vecs(3, 5);
-      if (!v)
-        return "bad-op";
-      return pt_line(box{(*v)[0], (*v)[1]}, box{(*v)[2], (*v)[3]}, (*v)[4]);
-    }
-    if (t[0] == "pairs" && t.size() == 9)
-    {
-      auto const v = vecs(3, 2);
-      auto const s = scalars(5, 4);
-      if (!v || !s)
-        return "bad-op";
-      return pairs_digest(box{(*v)[0], (*v)[1]}, (*s)[0], (*s)[1], (*s)[2], (*s)[3]);
-    }
-    if (t[0] == "unary" && t.size() == 7)
-    {
-      auto const v = vecs(3, 2);
-      auto const s = scalars(5, 2);
-      if (!v || !s)
-        return "bad-op";
-      return unary_line(box{(*v)[0], (*v)[1]}, (*s)[0], (*s)[1]);
-    }
-    if (t[0] == "shr" && t.size() == 6)
-    {
-      auto const v = vecs(3, 3);
-      if (!v)
-        return "bad-op";
-      return shr_line(box{(*v)[0], (*v)[1]}, (*v)[2]);
-    }
-    if (t[0] == "extp" && t.size() == 6)
-    {
-      auto const v = vecs(3, 3);
-      if (!v)
-        return "bad-op";
-      return extp_line(box{(*v)[0], (*v)[1]}, (*v)[2]);
-    }
-    return "bad-op";
-  }
-};
-
-template <typename T>
-std::string idist(std::vector<std::string> const &t)
-{
-  auto const a1 = scalar<T>(t[2]), a2 = scalar<T>(t[3]), b1 = scalar<T>(t[4]), b2 = scalar<T>(t[5]);
-  if (!a1 || !a2 || !b1 || !b2)
-    return "bad-op";
-  return std::to_string(
-      fcppt::math::interval_distance(fcppt::tuple::make(*a1, *a2), fcppt::tuple::make(*b1, *b2)));
-}
-
-template <typename T>
-std::string by_dim(std::vector<std::string> const &t)
-{
-  if (t[2] == "1")
-    return inst<T, 1>::handle(t);
-  if (t[2] == "2")
-    return inst<T, 2>::handle(t);
-  if (t[2] == "3")
-    return inst<T, 3>::handle(t);
-  return "bad-op";
-}
-
 std::string handle(std::vector<std::string> const &t)
 {
   if (t.size() < 3)
     return "bad-op";
-  bool const is_i = t[1] == "i";
-  if (!is_i && t[1] != "u")
-    return "bad-op";
-  if (t[0] == "idist")
-  {
-    if (t.size() != 6)
-      return "bad-op";
-    return is_i ? idist<int>(t) : idist<unsigned>(t);
-  }
-  return is_i ? by_dim<int>(t) : by_dim<unsigned>(t);
+  if (t[1] == "i")
+    return c13::handle_i(t);
+  if (t[1] == "u")
+    return c13::handle_u(t);
+  if (t[1] == "l")
+    return c13::handle_l(t);
+  if (t[1] == "m")
+    return c13::handle_m(t);
+  return "bad-op";
 }
 }
 
